@@ -612,12 +612,14 @@ func (f *Frame) applyContract(st *State, in ssa.Instruction, ct *Contract, sig *
 		}
 		// objects the callee may have allocated: their liveness is unknown to the caller unless ensured
 		at := map[string]types.Type{}
-		if fn != nil && vc.p.inModule(fn) {
+		if ct.ModAll {
+			// everything is havocked already
+		} else if fn != nil && vc.p.inModule(fn) {
 			for k, v := range vc.p.allocTypes(fn) {
 				at[k] = v
 			}
 		}
-		for i := 0; i < sig.Results().Len(); i++ {
+		for i := 0; i < sig.Results().Len() && !ct.ModAll; i++ {
 			vc.p.reachableStructs(sig.Results().At(i).Type(), at, 0)
 		}
 		for _, k := range sortedKeys(at) {
